@@ -172,6 +172,7 @@ pub struct RunOut {
 }
 
 pub static HUNG: AtomicU64 = AtomicU64::new(0);
+pub static ABORTED: AtomicU64 = AtomicU64::new(0);
 
 pub fn install_panic_hook() {
     let default = std::panic::take_hook();
@@ -227,9 +228,12 @@ pub fn run_case<P: Prop>(prop: &P, case: &P::Case, disk: &str, want_events: bool
     let (tx, rx) = std::sync::mpsc::channel::<(Exec, Box<SimCtx>, Option<String>)>();
     let prop_c = *prop;
     let case_c = case.clone();
+    let aborted = std::sync::Arc::new(AtomicBool::new(false));
+    let aborted_c = aborted.clone();
     let h = std::thread::Builder::new()
         .stack_size(4 << 20)
         .spawn(move || {
+            simos::set_abort_flag(std::sync::Arc::as_ptr(&aborted_c));
             simos::install(&mut *ctx as *mut SimCtx);
             let r = catch_unwind(AssertUnwindSafe(|| prop_c.exec(&case_c, &mut x)));
             let msg = if r.is_err() { simos::with_ctx(|c| c.panic_msg.take()).flatten().or(Some("panic".into())) } else { None };
@@ -237,7 +241,36 @@ pub fn run_case<P: Prop>(prop: &P, case: &P::Case, disk: &str, want_events: bool
             let _ = tx.send((x, ctx, msg));
         })
         .expect("spawn simulation thread");
-    let (mut x, ctx, harness_panic) = match rx.recv_timeout(std::time::Duration::from_secs(WATCHDOG_SECS)) {
+    // normal runs answer within a millisecond; the slices only matter for a run that aborted or hangs
+    let mut waited_ms = 0u64;
+    let res = loop {
+        match rx.recv_timeout(std::time::Duration::from_millis(20)) {
+            Err(std::sync::mpsc::RecvTimeoutError::Timeout) => {
+                waited_ms += 20;
+                if aborted.load(Ordering::SeqCst) {
+                    // the simulation thread is parked in the SIGABRT handler for good (simos::on_sigabrt)
+                    return RunOut {
+                        violations: vec![Violation {
+                            class: format!("{}:abort", prop.id()),
+                            detail: format!("the code under test aborted the process (a failed allocation - single requests above {} MiB fail in the simulation -, a panic while panicking, or abort())", simos::ALLOC_CAP >> 20),
+                        }],
+                        log_hash: 0,
+                        counters: BTreeMap::new(),
+                        nontrivial: true,
+                        harness_panic: None,
+                        events: vec![],
+                        api_log: vec![],
+                        sim_clock_s: 0,
+                    };
+                }
+                if waited_ms >= WATCHDOG_SECS * 1000 {
+                    break Err(std::sync::mpsc::RecvTimeoutError::Timeout);
+                }
+            }
+            other => break other,
+        }
+    };
+    let (mut x, ctx, harness_panic) = match res {
         Ok(t) => {
             let _ = h.join();
             t
@@ -476,6 +509,10 @@ pub fn run_check<P: Prop>(prop: &P, opt: &Options) -> i32 {
             for v in out.violations {
                 if v.class.ends_with(":no-progress:watchdog") {
                     // a run that does not terminate leaves a spinning thread behind: report and stop the batch
+                    stop.store(true, Ordering::Relaxed);
+                }
+                if v.class.ends_with(":abort") && ABORTED.fetch_add(1, Ordering::Relaxed) >= 64 {
+                    // every aborted run leaves a parked thread behind: enough of them have been seen
                     stop.store(true, Ordering::Relaxed);
                 }
                 if a.violations.len() < 64 {
